@@ -94,4 +94,20 @@ theorem wire_ecs_args_src : Gen.C04.wire_ecs_args = wireECSExpected := by
   unfold Gen.C04.wire_ecs_args wireECSExpected; rfl
 theorem wire_builder_src : Gen.C04.wire_builder_has_toInternal = "1" := by decide
 
+/-! Round 5.  (a) The CNAME-rewrite path of the main middleware: the request information handed to
+the caches below carries the REWRITTEN host (the ECS cache keys on `ri.Host`), in a new context,
+together with the rewritten request.  (b) What both caches hand to the next handler is the client's
+request resp. a clone of it: header bits such as CD and AD reach the upstream unchanged (the known
+findings `*:cd-not-in-key`, `*:ad-request-not-in-key` rest on it). -/
+def rewriteHostExpected : String := "agdnet.NormalizeDomain(modReq.Question[0].Name)"
+def rewriteReturnsExpected : String := "ctx, origRW, fctx.originalRequest | ctx, origRW, modReq"
+theorem rewrite_host_src : Gen.C04.rewrite_host_rhs = rewriteHostExpected := by
+  unfold Gen.C04.rewrite_host_rhs rewriteHostExpected; rfl
+theorem rewrite_ctx_src : Gen.C04.rewrite_ctx_args = "ctx, modReqInfo" := by decide
+theorem rewrite_returns_src : Gen.C04.rewrite_returns = rewriteReturnsExpected := by
+  unfold Gen.C04.rewrite_returns rewriteReturnsExpected; rfl
+theorem ecs_fwd_clone_src : Gen.C04.ecs_fwd_clone_args = "req" := by decide
+theorem ecs_fwd_next_src : Gen.C04.ecs_fwd_next_args = "ctx, nrw, ecsReq" := by decide
+theorem simple_fwd_next_src : Gen.C04.simple_fwd_next_args = "ctx, nrw, req" := by decide
+
 end Agd.Tie.C04
